@@ -17,7 +17,7 @@ func init() {
 		Explain: "Decides on every path of partitionConsumer.parseResponse: the batch's messages are appended to the delivered list only when the batch is not a control batch and — under ReadCommitted — not (transactional ∧ its producer in the aborted set), while under ReadUncommitted nothing is filtered (C11.no-control); " +
 			"parseRecords (which advances child.offset) runs before the control/aborted filters can skip the batch (C11.advance); the aborted set is extended only from index entries whose first offset is not beyond the batch and each used entry is popped, and an entry is removed only on an ABORT marker (C11.marker); the aborted index is sorted by FirstOffset (C11.sorted); the request carries the configured isolation level (C11.request). " +
 			"NOT covered: transactions spanning fetch responses (the set is per response), completeness of the broker's index.",
-		Rules: []func(*Ctx){c11Rules, c03FetchFields},
+		Rules: []func(*Ctx){c11Rules, c03FetchFields, c03FreshElement},
 	})
 }
 
@@ -254,7 +254,20 @@ func c11Rules(c *Ctx) {
 					continue
 				}
 				bad, undecided := m.primaryKeyViolations(key)
+				// the elements compared must be those of the slice being sorted (sort.Slice swaps the elements of its
+				// argument and asks the comparator about positions: a comparator reading another slice — the
+				// original of which the argument is a copy — stops describing the argument after the first swap)
+				otherSlice := false
+				if a := callArgs(s); len(a) > 0 {
+					for _, base := range comparedSlices(less) {
+						if !samePath(base, strip(a[0])) && !sameSingleAssignmentCell(base, strip(a[0])) {
+							otherSlice = true
+						}
+					}
+				}
 				switch {
+				case otherSlice:
+					detail = "the comparator reads the elements of a different slice than the one being sorted"
 				case undecided:
 					detail = "the comparator is outside the interpretable fragment (comparisons of corresponding fields combined with && / ||)"
 				case len(bad) > 0:
@@ -294,4 +307,61 @@ func firstOffsetField(p *Program) string {
 		}
 	}
 	return "#1"
+}
+
+// sameSingleAssignmentCell: a and b are loads of the same local variable cell (directly or through a closure's
+// captured reference), and that variable is assigned exactly once — so both loads yield the same value.
+func sameSingleAssignmentCell(a, b ssa.Value) bool {
+	ua, ok1 := a.(*ssa.UnOp)
+	ub, ok2 := b.(*ssa.UnOp)
+	if !ok1 || !ok2 || ua.Op != token.MUL || ub.Op != token.MUL {
+		return false
+	}
+	ca, cb := cellOf(ua.X), cellOf(ub.X)
+	al, ok := ca.(*ssa.Alloc)
+	if !ok || ca != cb {
+		return false
+	}
+	n := 0
+	for _, r := range *al.Referrers() {
+		if st, ok := r.(*ssa.Store); ok && st.Addr == ssa.Value(al) {
+			n++
+		}
+	}
+	return n == 1
+}
+
+// cellOf: the local variable cell an address denotes — the Alloc itself, or for a closure's free variable the cell
+// the enclosing function bound it to when it made the closure (function literals have one MakeClosure site).
+func cellOf(v ssa.Value) ssa.Value {
+	for d := 0; d < 6; d++ {
+		fv, ok := v.(*ssa.FreeVar)
+		if !ok {
+			return v
+		}
+		g := fv.Parent()
+		par := g.Parent()
+		if par == nil {
+			return v
+		}
+		idx := -1
+		for i, f := range g.FreeVars {
+			if f == fv {
+				idx = i
+			}
+		}
+		var bound ssa.Value
+		for _, b := range par.Blocks {
+			for _, in := range b.Instrs {
+				if mc, ok := in.(*ssa.MakeClosure); ok && mc.Fn == ssa.Value(g) && idx >= 0 && idx < len(mc.Bindings) {
+					bound = mc.Bindings[idx]
+				}
+			}
+		}
+		if bound == nil {
+			return v
+		}
+		v = bound
+	}
+	return v
 }
